@@ -93,7 +93,10 @@ def step (st : St) (line : String) : St × String :=
            let model := match r.2 with
              | [batch] => fmtAggRes (aggExpected batch)
              | _ => "-"
-           ({ st with aggWin := r.1 }, verdict model impl)
+           -- the model's answer is the proved per-key aggregate (`Props.C04.partitioned_aggregate`): a
+           -- different answer is a failing input, not only a broken tie
+           ({ st with aggWin := r.1 }, if model == impl then "ok" else
+             s!"JUDGE C04 aggregate per key is not the aggregate of that key's events of the batch (expected {model})")
          | _, _, _ => (st, "BADLINE"))
       | [] => (st, "")
       | _ => (st, "BADLINE")
